@@ -39,6 +39,12 @@ CHECKS['C18'] = ('model_checking',
     'Token spellings are selectors (bounded exhaustive); arbitrary character strings outside; numeric VALUE semantics of int()/float() trusted. ' + TB,
     'DESIGN.md §3 C18')
 
+CHECKS['C02'] = ('model_checking',
+    'concolic symbolic execution of the real operator closures on IEEE-754 double proxies (z3 QF_FP) and CrossHair/z3 for comparisons, & and the ^ dispatch',
+    'Bounded symbolic checking of the real safe_eval closures taken out of OPERATORS: + - * / % unary- unary+ return exactly the statement\'s value for EVERY finite double operand (both operands symbolic, or one symbolic against each of 22 pool kinds in both positions): left-most error identical, non-numeric text #VALUE!, zero divisor #DIV/0!, non-finite #NUM!, otherwise the IEEE result; the six comparisons form one total order numbers < text < logicals for symbolic int/bool/ASCII-text operands, blanks as 0/"", errors propagate identically; & joins display forms; ^ over a 22x22 boundary pool (selectors).',
+    'Kernel = the closure inside the numpy.vectorize wrapper (wrapper validated concretely on 5874 pool cases); ^ numerics only on the pool; floats not on comparison paths; text operands len <= 2 ASCII. ' + TB,
+    'DESIGN.md §3 C02')
+
 NA = {
     'C15': 'the dependency closure is computed over openpyxl worksheets read from .xlsx files while mutating the schedula dispatcher; neither can be given a symbolic state (DESIGN §4)',
     'C16': 'placement is done by openpyxl range iteration zipped with np.ravel and compared by re-reading files: I/O and third-party C code, no encodable kernel (DESIGN §4)',
